@@ -20,8 +20,9 @@ from harness.common.isolated import run_many
 PID = "C18"
 LEVEL = "proof"
 REQUIRED_THEOREMS = [
-    "rowEntry_add_only", "axisOps_apply", "bcData_ghost", "cart1_matrix_eq_laplace_with_bc",
-    "polar_matrix_eq_laplace_with_bc", "polar_rmin0_row_eq_laplace", "sph_matrix_eq_laplace_with_bc",
+    "rowEntry_add_only", "matvec_set_first", "axisOps_apply", "bcData_ghost", "cart1_row_apply",
+    "cart1_matrix_eq_laplace_with_bc", "polar_matrix_eq_laplace_with_bc", "polar_rmin0_row_eq_laplace",
+    "sph_matrix_eq_laplace_with_bc", "cart2_row_apply", "cyl_row_apply", "cart1_matvec_eq_progSum",
     "residual_identity", "curvature_row_degenerate",
 ]
 RULE = ("seed-derived grids of all classes with 2-5 cells per axis (1-3 axes Cartesian, polar, spherical, cylindrical; "
